@@ -128,6 +128,7 @@ class Mod:
         self.pkg = pkg
         self.defs = []      # list of dict
         self.all = None     # None | list[str]
+        self.stubs = False  # ship a .pyi next to the .py declaring the module-level attributes (`x: int = ...` when the source gives a value)
         self.all_from = []  # [{"local": name the other module is bound to here, "style": star | plus | aug | extend}]: __all__ composed from <local>.__all__
         self.subs = []      # list[Mod]
 
@@ -190,6 +191,11 @@ def render_mod(m):
     return "\n".join(lines) + "\n"
 
 
+def render_stubs(m):
+    lines = [f"{d['name']}: int" + (" = ..." if d["value"] is not None else "") for d in m.defs if d["kind"] == "attr"]
+    return "\n".join(lines) + "\n"
+
+
 def files_of(m, prefix=""):
     out = {}
     if not m.name:
@@ -197,10 +203,14 @@ def files_of(m, prefix=""):
             out.update(files_of(s, prefix))
     elif m.pkg:
         out[f"{prefix}{m.name}/__init__.py"] = render_mod(m)
+        if getattr(m, "stubs", False) and any(d["kind"] == "attr" for d in m.defs):
+            out[f"{prefix}{m.name}/__init__.pyi"] = render_stubs(m)
         for s in m.subs:
             out.update(files_of(s, f"{prefix}{m.name}/"))
     else:
         out[f"{prefix}{m.name}.py"] = render_mod(m)
+        if getattr(m, "stubs", False) and any(d["kind"] == "attr" for d in m.defs):
+            out[f"{prefix}{m.name}.pyi"] = render_stubs(m)
     return out
 
 
@@ -546,6 +556,9 @@ def gen_pkg(rng, stream, facade=False):
         else:
             root.defs.append({"kind": "import", "frm": root.name, "name": "cyc"})
             root.all = (root.all or []) + ["cyc"]
+    for m, mp in mods:
+        if stream in ("incompatible", "mixed", "hierarchy", "incompatible+compatible") and rng.random() < 0.2:
+            m.stubs = True
     if not facade:
         return root
     fac = Mod("pkg", True)
@@ -560,6 +573,23 @@ def gen_pkg(rng, stream, facade=False):
             used.add(nm)
             fac.defs.append({"kind": "import", "frm": mp, "name": nm})
     fac.all = [bound(d) for d in fac.defs if rng.random() < 0.9] or None
+    # a public class defined in the facade whose BASE lives in the private sibling package (loaded later, on demand, by alias resolution)
+    if rng.random() < 0.7:
+        cands = [(m, mp, d) for m, mp in mods if mp.count(".") <= 1 for d in m.defs if d["kind"] == "class"]
+        if cands:
+            m, mp, d = rng.choice(cands)
+            local = next((bound(x) for x in fac.defs if x["frm"] == mp and x["name"] == d["name"]), None)
+            if local is None:
+                local = d["name"] if d["name"] not in used else fresh(rng, used, [["BaseImpl", "_Base0", "Core"]])
+                used.add(local)
+                imp = {"kind": "import", "frm": mp, "name": d["name"]}
+                if local != d["name"]:
+                    imp["asname"] = local
+                fac.defs.append(imp)
+            cn = fresh(rng, used, [["Client", "Widget", "Service"]])
+            used.add(cn)
+            fac.defs.append({"kind": "class", "name": cn, "bases": [local], "body": [gen_def(rng, {"__init__"}, 2)] if rng.random() < 0.4 else []})
+            fac.all = (fac.all or []) + [cn]
     top = Mod("", True)
     top.subs = [fac, root]
     return top
@@ -960,8 +990,38 @@ def e_override_edit(rng, pkg):
     return {"edit": f"override-rekind-{old}", "class": "incompatible", "path": p, "expect": "OBJECT_CHANGED_KIND", "touched": []}
 
 
+def e_facade_base_member(rng, pkg):
+    """An incompatible edit of a public member that a class of the facade package only inherits from a base defined in another package."""
+    world = {mp: m for m, mp in iter_mods(pkg)}
+    cands = []
+    for m, mp in iter_mods(pkg):
+        for d in m.defs:
+            if d["kind"] == "class" and d["bases"]:
+                for b in d["bases"]:
+                    imp = next((x for x in m.defs if x["kind"] == "import" and bound(x) == b), None)
+                    if imp and imp["frm"] in world and imp["frm"].split(".")[0] != mp.split(".")[0]:
+                        base = next((x for x in world[imp["frm"]].defs if x["kind"] == "class" and x["name"] == imp["name"]), None)
+                        own = {bound(x) for x in d["body"]}
+                        for x in (base["body"] if base else []):
+                            if x["kind"] in ("func", "attr") and not name_is_private(x["name"]) and x["name"] not in own:
+                                cands.append((base["body"], x, f"{imp['frm']}.{base['name']}.{x['name']}"))
+    if not cands:
+        return None
+    lst, d, p = rng.choice(cands)
+    if d["kind"] == "attr" and d["value"] is not None and rng.random() < 0.5:
+        d["value"] = rng.choice([v for v in (1, 2, 3, 7) if str(v) != str(d["value"])])
+        return {"edit": "facade-base-change-value", "class": "incompatible", "path": p, "expect": "ATTRIBUTE_CHANGED_VALUE", "touched": []}
+    if rng.random() < 0.5:
+        lst.remove(d)
+        return {"edit": "facade-base-remove-" + d["kind"], "class": "incompatible", "path": p, "expect": "OBJECT_REMOVED", "touched": []}
+    old, name = d["kind"], d["name"]
+    d.clear()
+    d.update({"kind": "func", "name": name, "sig": (), "ret": None} if old == "attr" else {"kind": "attr", "name": name, "value": 1})
+    return {"edit": f"facade-base-rekind-{old}", "class": "incompatible", "path": p, "expect": "OBJECT_CHANGED_KIND", "touched": []}
+
+
 EDITS = {
-    "override": e_override_edit,
+    "override": e_override_edit, "facade-base-member": e_facade_base_member,
     "add-public": lambda r, p: e_add_def(r, p, False), "add-private": lambda r, p: e_add_def(r, p, True),
     "add-module": e_add_module, "add-optional-kwonly": e_add_kwonly,
     "remove-def": e_remove_def, "remove-reexport": e_remove_reexport, "remove-module": e_remove_module,
@@ -1312,6 +1372,17 @@ class SpecWorld:
         return None
 
 
+def mro_loaded(tree, t):
+    """Are all classes of CPython's MRO of `t` present in the loaded collection?  (A package that no exported alias points at is not
+    loaded by resolve_aliases(external=None, implicit=False): Griffe then cannot know what a base defined there provides.)"""
+    for k in t.__mro__[:-1]:
+        try:
+            tree.modules_collection.get_member(k._spec_path)
+        except Exception:  # noqa: BLE001
+            return False
+    return True
+
+
 def name_is_private(n):
     return n.startswith("_") and not (n.startswith("__") and n.endswith("__"))
 
@@ -1545,7 +1616,7 @@ def evaluate_elab(ctx, c, status, ibs, er, pnames_rev):
                 if a[0] != "class" or path not in W.class_at:
                     continue
                 t = W.build(path)
-                if isinstance(t, str):
+                if isinstance(t, str) or not mro_loaded(ra.objs[0], t):
                     continue
                 want = {}
                 for n in SpecWorld.names(t):
@@ -1793,6 +1864,8 @@ def class_view_oracle(ctx, c, ibs, pairs, tally):
         if po not in wo.class_at or pn not in wn.class_at:
             continue
         exp = class_view_expectations(wo, wn, po, pn)
+        if not isinstance(exp, str) and not (mro_loaded(c.old, wo.build(po)) and mro_loaded(c.new, wn.build(pn))):
+            exp = "base-in-a-package-that-was-not-loaded"
         if isinstance(exp, str):
             ctx.observe("class_view", "no-oracle:" + exp)
             unknown = True
@@ -2228,6 +2301,10 @@ def make_case(ctx, stream):
             m = EDITS[name](rng, new)
             if m:
                 metas += m if isinstance(m, list) else [m]
+    if facade and stream not in ("compatible", "identical") and rng.random() < 0.5:
+        m = e_facade_base_member(rng, new)
+        if m:
+            metas.append(m)
     overrides = []
     if rng.random() < 0.15:
         defs = [p for _, d, p, _, _ in iter_defs(old)]
